@@ -1,9 +1,52 @@
 #!/bin/bash
 # Mutation sanity for the Go->Lean translator: apply one textual mutation to a scratch copy of the Go
-# sources, regenerate lean/Girc/Gen/Funcs.lean from it, and check that `lake build Girc.Props.Tie` fails
+# sources, regenerate lean/Girc/Gen/Funcs.lean from it, and check that `lake build` of the Tie modules fails
 # (or, with expect=pass, still succeeds).  Only Funcs.lean is touched, and it is restored afterwards.
 #   usage: mut_translate.sh <name> <file.go> <perl-substitution> [expect=fail|pass]
+#          mut_translate.sh suite          -- one mutation per target group (old and new), see the list at the end
 set -u
+TIE_MODULES="Girc.Props.TieNames Girc.Props.TieGlob Girc.Props.TieWire Girc.Props.TieModes Girc.Props.TieCtcp Girc.Props.TieFormat"
+if [ "${1:-}" = "suite" ]; then
+  me="$0"; rc=0
+  run() { out="$("$me" "$@")"; echo "$out"; case "$out" in *"=> OK"*) ;; *) rc=1;; esac; }
+  # first phase (16 functions)
+  run nick-brace      format.go   "s/nick\\[i\\] > '\\}'/nick[i] > '~'/"
+  run rfc1459-94      format.go   's/<= 94/<= 93/'
+  run glob-swap       format.go   's/trailingGlob := strings.HasPrefix\(match, globChar\), strings.HasSuffix\(match, globChar\)/trailingGlob := strings.HasSuffix(match, globChar), strings.HasPrefix(match, globChar)/'
+  run parsetags-lt    cap_tags.go 's/hasValue < 1 \|\|/hasValue < 0 ||/'
+  run ctcp-len        ctcp.go     's/len\(e.Params\[1\]\) < 3/len(e.Params[1]) < 2/'
+  run source-at       event.go    "s/prefixHost    byte = '\@'/prefixHost    byte = '%'/"
+  # ParseEvent
+  run parseevent-trailer event.go 's/trailerIndex \+= lastIndex \+ 1/trailerIndex += lastIndex + 2/'
+  run parseevent-upper   event.go 's/e.Command = strings.ToUpper\(raw\[i:j\]\)/e.Command = raw[i:j]/'
+  # serialiser side
+  run tagsbytes-nosort cap_tags.go 's/\tsort.Strings\(names\)\n//'
+  run tagsbytes-sep    cap_tags.go 's/if current < max-1 \{\n\t\t\tbuffer.WriteByte/if current < max {\n\t\t\tbuffer.WriteByte/'
+  run tagswrite-space  cap_tags.go 's/j, err = w.Write\(\[\]byte\{eventSpace\}\)/j, err = w.Write([]byte{messagePrefix})/'
+  run tagsset-limit    cap_tags.go 's/len\(value\) \+ 2\) > maxTagLength/len(value) + 1) > maxTagLength/'
+  run tagsset-rebind   cap_tags.go 's/\tif t == nil \{\n\t\tt = make\(Tags\)\n\t\}\n\n\tif !validTag\(key\)/\tif !validTag(key)/'
+  run eventbytes-cr    event.go    "s/out\\[i\\] == '\\\\n' \\|\\| out\\[i\\] == '\\\\r'/out[i] == '\\\\n'/"
+  run eventlen-colon   event.go    's/\t\t\t\tlength\+\+\n/\t\t\t\tlength += 2\n/'
+  run sourcestring-at  event.go    's/out = out \+ string\(prefixHost\) \+ s.Host/out = out + string(prefixIdent) + s.Host/'
+  # event.go helpers
+  run last-index       event.go    's/return e.Params\[len\(e.Params\)-1\]/return e.Params[0]/'
+  run stripaction-8    event.go    's/return msg\[8 : len\(msg\)-1\]/return msg[7 : len(msg)-1]/'
+  run isfromuser-nick  event.go    's/if !IsValidNick\(e.Params\[0\]\)/if !IsValidUser(e.Params[0])/'
+  run equals-host      event.go    's/ \|\| s.Host != ss.Host//'
+  # modes.go
+  run userprefix-rest  modes.go    's/return modes, raw\[i:\], true/return modes, raw[i+1:], true/'
+  run hasarg-setargs   modes.go    's/\t\tif set \{\n\t\t\treturn true, true/\t\tif !set {\n\t\t\treturn true, true/'
+  # format.go (Fmt, TrimFmt and the two package-level tables)
+  run fmt-tolower      format.go   's/code := strings.ToLower\(text\[last\+1 : i\]\)/code := text[last+1 : i]/'
+  run fmt-sep          format.go   's/repl \+= fmt.Sprintf\(",%02d", color\)/repl += fmt.Sprintf(";%02d", color)/'
+  run fmt-table        format.go   's/"red":         4,/"red":         5,/'
+  run trimfmt-brace    format.go   's/string\(fmtOpenChar\)\+color\+string\(fmtCloseChar\)/string(fmtCloseChar)+color+string(fmtOpenChar)/'
+  run stripraw-regex   format.go   's/\[019\]\?\\d\(,\[019\]\?\\d\)\?\)`\)/[019]?\\d(;[019]?\\d)?)`)/'
+  run stripraw-noregex format.go   's/\ttext = reColor.ReplaceAllString\(text, ""\)\n//'
+  # not a semantic change: must still build
+  run comment-only     event.go    's/\/\/ Command is required./\/\/ The command is required./' pass
+  exit $rc
+fi
 export GOFLAGS=-mod=mod GOPROXY=off GOSUMDB=off GOTOOLCHAIN=local
 ROOT="$(cd "$(dirname "$0")/.." && pwd)"
 # Clean export of the Go sources (never the live /repo working tree, which other jobs may be patching):
@@ -22,7 +65,7 @@ mkdir -p "$scratch/gen"
 "$ROOT/tools/extract/extract.bin" -repo "$scratch" -out "$scratch/gen/Facts.lean" 2> "$scratch/extract.err"
 cmp -s "$scratch/gen/Funcs.lean" "$ROOT/lean/Girc/Gen/Funcs.lean" || cp "$scratch/gen/Funcs.lean" "$ROOT/lean/Girc/Gen/Funcs.lean"
 if cmp -s "$ROOT/lean/Girc/Gen/Funcs.lean" "$scratch/Funcs.orig"; then changed=no; else changed=yes; fi
-( cd "$ROOT/lean" && lake build Girc.Props.Tie > "$scratch/build.log" 2>&1 ); rc=$?
+( cd "$ROOT/lean" && lake build $TIE_MODULES > "$scratch/build.log" 2>&1 ); rc=$?
 if [ $rc -eq 0 ]; then built=pass; else built=fail; fi
 first="$(grep -m1 -E '^error: Girc' "$scratch/build.log" | cut -c1-160)"
 # restore
